@@ -372,5 +372,7 @@ def check(ctx):
         it = c06.It(ctx.db(cfg))
         for nm in ("next", "next_back", "nth", "nth_back"):
             c06.check_ownership(ctx, cfg, it, nm)
+        # C03.K: no method of the iterator lets element-reading code see slots outside the live range (they were moved out or destroyed)
+        c06.check_live_range(ctx, cfg, it, "C03.K")
         s = check_suppression_sites(ctx, cfg)
         ctx.floor("C03.S", "drop-suppression sites (%s)" % cfg, s, 1)
